@@ -623,6 +623,17 @@ def explore(run, on_path=None, max_paths=4000):
                     allowed.append(True)
                 f = Or(*allowed) if allowed else False
                 ctx.oblige("raises.allowed" if allowed else "safe", "%s@L%s" % (e.cls, getattr(e.node, "lineno", "?")), f, e.node)
+            if C.reads_allowed and not run.inline_all:
+                # frame.read: attribute reads observed on this path (every path of the function / slice is executed)
+                for oname, cls, attr in ctx.reads:
+                    allowed = C.reads_allowed.get(cls.split("::")[-1])
+                    if allowed is not None:
+                        ob = run.obligation("frame.read", "%s.%s" % (cls.split("::")[-1], attr), None)
+                        ob.paths += 1
+                        ob.backend["syntactic-frame"] = ob.backend.get("syntactic-frame", 0) + 1
+                        if attr not in allowed:
+                            ob.verdict = "refuted"
+                            ob.detail = "attribute %s of %s is read" % (attr, cls)
             results.append((ctx, outcome, args, value))
             if on_path is not None:
                 on_path(ctx, outcome, args, old, value)
